@@ -378,7 +378,7 @@ bool Xml::Private::parseElement(Element& element)
         continue;
       }
       else
-        this->pos = pos;
+        this->pos = *pos.pos == '<' ? token.pos : pos; // text: rewind to keep its leading white space, but never to a comment that was just skipped
     }
     String string;
     if(!parseText(string))
